@@ -477,6 +477,59 @@ func ruleAugFixpoint(c *Ctx) []Obligation {
 	} else {
 		obs = append(obs, bad(R, con, pos, "the retry loop has an exit that does not test 'a whole pass applied nothing' or 'nothing pending' ("+badExit+"): chains of dependent augments may be cut short"))
 	}
+	// each pass visits every pending module: an index loop over the pending list starts at 0 and runs while index < len
+	if ifi, isIf := inner.Instrs[len(inner.Instrs)-1].(*ssa.If); isIf {
+		if bo, isB := ifi.Cond.(*ssa.BinOp); isB {
+			idx, ln, op := bo.X, bo.Y, bo.Op
+			if isLenOf(idx) {
+				idx, ln = ln, idx
+				op = map[token.Token]token.Token{token.LSS: token.GTR, token.GTR: token.LSS, token.LEQ: token.GEQ, token.GEQ: token.LEQ}[op]
+			}
+			if phi, isPhi := idx.(*ssa.Phi); isPhi && isLenOf(ln) && phi.Block() == inner {
+				con = "a pass of the retry loop visits every pending module"
+				var init *int64
+				for i, e := range phi.Edges {
+					if !inner.Dominates(inner.Preds[i]) {
+						if k, okk := constInt(e); okk {
+							kk := k
+							init = &kk
+						}
+					}
+				}
+				// where the current slot is removed (the list is re-sliced shorter) another module moves into it:
+				// the index must stay
+				skips := ""
+				for _, b := range proc.Blocks {
+					if !inner.Dominates(b) || !blockReaches(b, inner, nil) {
+						continue
+					}
+					shrinks := false
+					for _, in := range b.Instrs {
+						if sl, isS := in.(*ssa.Slice); isS && sl.High != nil {
+							shrinks = true
+						}
+					}
+					if !shrinks {
+						continue
+					}
+					for i, e := range phi.Edges {
+						pr := inner.Preds[i]
+						if (pr == b || blockReaches(b, pr, map[*ssa.BasicBlock]bool{inner: true})) && e != ssa.Value(phi) {
+							skips = c.InstrPos(b.Instrs[0])
+						}
+					}
+				}
+				switch {
+				case skips != "":
+					obs = append(obs, bad(R, con, c.InstrPos(ifi), "after the finished module's slot is filled with the last pending module ("+skips+") the index still advances: the module moved into the slot is skipped by this pass"))
+				case init != nil && *init == 0 && op == token.LSS:
+					obs = append(obs, ok(R, con, c.InstrPos(ifi), "for i := 0; i < len(pending)"))
+				case init != nil:
+					obs = append(obs, bad(R, con, c.InstrPos(ifi), fmt.Sprintf("the pass runs from index %d while `index %s len(pending)`: some pending module is never visited by the retry passes, so augments into nodes that its augments add are reported as not found", *init, op)))
+				}
+			}
+		}
+	}
 	return obs
 }
 
